@@ -277,6 +277,7 @@ class Machine:
                     op["cut"] = rng.randint(1, k - 1)
             if lay == "mesh":
                 op["points"] = rng.choice(["points", "centroids"])
+                op["dirsel"] = rng.randint(0, 11)
                 if k < 2:
                     op["points"] = "points"
             op["via"] = rng.choice(["call", "unstructured"])
@@ -944,8 +945,14 @@ class Machine:
             return self._call(side, op, None, None, seed_arg, store), None
         if kind == "m":
             import meshio
-            pts3 = np.zeros((len(what), 3))
-            pts3[:, : self.dim] = self.pool[:, what].T
+            # which mesh columns carry the field's coordinates, in which order ("zx": first
+            # coordinate in column 2, second in column 0); unused columns hold other numbers
+            order = {1: [[0], [1], [2]], 2: [[0, 1], [1, 0], [0, 2], [2, 0], [1, 2], [2, 1]],
+                     3: [[0, 1, 2], [2, 0, 1], [1, 0, 2], [2, 1, 0]]}[self.dim]
+            sel = order[op.get("dirsel", 0) % len(order)]
+            pts3 = np.full((len(what), 3), 7.5)
+            for k_, col in enumerate(sel):
+                pts3[:, col] = self.pool[k_, what]
             n = len(what)
             if n >= 2:
                 cells = [("line", np.array([[i, i + 1] for i in range(n - 1)]))]
@@ -960,12 +967,14 @@ class Machine:
             kw = {"post_process": op["post"], "store": store}
             if "value" in seed_arg:
                 kw["seed"] = self._seed_obj(side, seed_arg["value"], seed_arg["obj"])
-            direction = ["x", "xy", "xyz"][self.dim - 1]
+            direction = "".join("xyz"[c] for c in sel)
+            if op.get("dirsel", 0) % 3 == 2:
+                direction = list(sel)  # documented alternative: list of indices
             out = side.srf.mesh(mesh, points=op["points"], direction=direction,
                                 name="f_" + side.tag, **kw)
             if op["points"] == "centroids":
                 cents = np.vstack([np.mean(pts3[c.data], axis=1) for c in mesh.cells])
-                ptsx = cents.T[: self.dim]
+                ptsx = cents.T[sel]
                 self.last_mesh = ("x", ptsx.tolist())
                 # the mesh must carry what was returned
                 stored = np.concatenate(
